@@ -66,7 +66,11 @@ impl Aabb {
 impl Iso32 {
     #[verifier::external_body]
     pub fn inverse(&self) -> (r: Iso32) ensures r == iso32_inv(*self) { unimplemented!() }
+    /// `a.inv_mul(&b)` (not used by the pinned tree): a deterministic function of both poses, otherwise unconstrained
+    #[verifier::external_body]
+    pub fn inv_mul(&self, rhs: &Iso32) -> (r: Iso32) ensures r == iso32_inv_mul_s(*self, *rhs) { unimplemented!() }
 }
+pub uninterp spec fn iso32_inv_mul_s(a: Iso32, b: Iso32) -> Iso32;
 /// `a.inverse() * b` for f32 isometries (operator with a reference operand: rule S rewrites it to this call)
 #[verifier::external_body]
 pub fn iso32_compose(a: Iso32, b: &Iso32) -> (r: Iso32) ensures r == iso32_mul(a, *b) { unimplemented!() }
